@@ -30,10 +30,10 @@ def decode_and_execute(E, fc, body, ctx):
     return req, E.method(req, 'execute', ctx)
 
 
-def in_table(ctx, t, a, n):
+def in_table(E, ctx, t, a, n):
     """S-REG: the n cells from protocol address a all lie inside table t"""
     blk = ctx.store[t]
-    return S.seq_valid(blk, a + S.offset(ctx), n)
+    return S.block_valid(E, blk, a + S.offset(ctx), n)
 
 
 def is_exc(E, resp, fc, code):
@@ -44,21 +44,21 @@ def read_lemma(fc):
     t, lim = S.TABLE_OF_FC[fc], M.LIMITS[fc]
 
     def lemma(E):
-        ctx = S.slave_context(E)
+        ctx = S.slave_context(E, layout=E.choice('layout', S.LAYOUTS))
         body = E.bytes_n('body', 4)
         a, q = P.u16_at(body, 0), P.u16_at(body, 2)
         before = E.clone(ctx)
         req, resp = decode_and_execute(E, fc, body, ctx)
         bad_q = L.Or(q < 1, q > lim)
         E.prove('quantity-outside-limits->03', L.Implies(bad_q, is_exc(E, resp, fc, 3)))
-        E.prove('range-outside-table->02', L.Implies(L.And(L.Not(bad_q), L.Not(in_table(before, t, a, q))), is_exc(E, resp, fc, 2)))
-        E.prove('valid->normal-response', L.Implies(L.And(L.Not(bad_q), in_table(before, t, a, q)), E.classname(resp) == M.short(M.RSP[fc])))
+        E.prove('range-outside-table->02', L.Implies(L.And(L.Not(bad_q), L.Not(in_table(E, before, t, a, q))), is_exc(E, resp, fc, 2)))
+        E.prove('valid->normal-response', L.Implies(L.And(L.Not(bad_q), in_table(E, before, t, a, q)), E.classname(resp) == M.short(M.RSP[fc])))
         E.prove('store-unchanged', tables_unchanged(E, ctx, before))
     return lemma
 
 
 def fc05_lemma(E):
-    ctx = S.slave_context(E)
+    ctx = S.slave_context(E, layout=E.choice('layout', S.LAYOUTS))
     body = E.bytes_n('body', 4)
     a, v = P.u16_at(body, 0), P.u16_at(body, 2)
     before = E.clone(ctx)
@@ -66,36 +66,36 @@ def fc05_lemma(E):
     illegal = L.And(v != 0x0000, v != 0xFF00)
     E.prove('fc05:value-not-0000/FF00->03', L.Implies(illegal, L.And(is_exc(E, resp, 5, 3), tables_unchanged(E, ctx, before))),
             finding='C05-F1', region=illegal)
-    E.prove('fc05:address-outside->02', L.Implies(L.And(L.Not(illegal), L.Not(in_table(before, 'c', a, 1))), is_exc(E, resp, 5, 2)))
+    E.prove('fc05:address-outside->02', L.Implies(L.And(L.Not(illegal), L.Not(in_table(E, before, 'c', a, 1))), is_exc(E, resp, 5, 2)))
     if E.classname(resp) == 'ExceptionResponse':
         E.prove('exception->store-unchanged', tables_unchanged(E, ctx, before))
 
 
 def fc06_lemma(E):
-    ctx = S.slave_context(E)
+    ctx = S.slave_context(E, layout=E.choice('layout', S.LAYOUTS))
     body = E.bytes_n('body', 4)
     a = P.u16_at(body, 0)
     before = E.clone(ctx)
     req, resp = decode_and_execute(E, 6, body, ctx)
-    E.prove('fc06:address-outside->02', L.Implies(L.Not(in_table(before, 'h', a, 1)), is_exc(E, resp, 6, 2)))
-    E.prove('fc06:valid->normal', L.Implies(in_table(before, 'h', a, 1), E.classname(resp) == 'WriteSingleRegisterResponse'))
+    E.prove('fc06:address-outside->02', L.Implies(L.Not(in_table(E, before, 'h', a, 1)), is_exc(E, resp, 6, 2)))
+    E.prove('fc06:valid->normal', L.Implies(in_table(E, before, 'h', a, 1), E.classname(resp) == 'WriteSingleRegisterResponse'))
     if E.classname(resp) == 'ExceptionResponse':
         E.prove('exception->store-unchanged', tables_unchanged(E, ctx, before))
 
 
 def fc22_lemma(E):
-    ctx = S.slave_context(E)
+    ctx = S.slave_context(E, layout=E.choice('layout', S.LAYOUTS))
     body = E.bytes_n('body', 6)
     a = P.u16_at(body, 0)
     before = E.clone(ctx)
     req, resp = decode_and_execute(E, 22, body, ctx)
-    E.prove('fc22:address-outside->02', L.Implies(L.Not(in_table(before, 'h', a, 1)), is_exc(E, resp, 22, 2)))
+    E.prove('fc22:address-outside->02', L.Implies(L.Not(in_table(E, before, 'h', a, 1)), is_exc(E, resp, 22, 2)))
     if E.classname(resp) == 'ExceptionResponse':
         E.prove('exception->store-unchanged', tables_unchanged(E, ctx, before))
 
 
 def fc15_lemma(E):
-    ctx = S.slave_context(E)
+    ctx = S.slave_context(E, layout=E.choice('layout', S.LAYOUTS))
     head = E.bytes_n('head', 5)
     data = E.bytes('data', 0, 247)
     a, q, bc = P.u16_at(head, 0), P.u16_at(head, 2), L.at(head, 4)
@@ -108,14 +108,14 @@ def fc15_lemma(E):
     truncated = q > 8 * nd                             # known finding: decode truncates the quantity to the bits present
     E.prove('fc15:quantity-outside-limits->03', L.Implies(bad_q, is_exc(E, resp, 15, 3)), finding='C05-F2', region=truncated)
     E.prove('fc15:bytecount-contradicts-quantity->03', L.Implies(L.And(L.Not(bad_q), bad_bc), is_exc(E, resp, 15, 3)), finding='C05-F2', region=truncated)
-    E.prove('fc15:range-outside-table->02', L.Implies(L.And(L.Not(bad_q), L.Not(bad_bc), L.Not(in_table(before, 'c', a, q))), is_exc(E, resp, 15, 2)))
-    E.prove('fc15:valid->normal', L.Implies(L.And(L.Not(bad_q), L.Not(bad_bc), in_table(before, 'c', a, q)), E.classname(resp) == 'WriteMultipleCoilsResponse'))
+    E.prove('fc15:range-outside-table->02', L.Implies(L.And(L.Not(bad_q), L.Not(bad_bc), L.Not(in_table(E, before, 'c', a, q))), is_exc(E, resp, 15, 2)))
+    E.prove('fc15:valid->normal', L.Implies(L.And(L.Not(bad_q), L.Not(bad_bc), in_table(E, before, 'c', a, q)), E.classname(resp) == 'WriteMultipleCoilsResponse'))
     if E.classname(resp) == 'ExceptionResponse':
         E.prove('exception->store-unchanged', tables_unchanged(E, ctx, before))
 
 
 def fc16_lemma(E):
-    ctx = S.slave_context(E)
+    ctx = S.slave_context(E, layout=E.choice('layout', S.LAYOUTS))
     head = E.bytes_n('head', 5)
     a, q, bc = P.u16_at(head, 0), P.u16_at(head, 2), L.at(head, 4)
     data = E.bytes('data', 0, 247)
@@ -126,14 +126,14 @@ def fc16_lemma(E):
     bad_bc = bc != 2 * q
     E.prove('fc16:quantity-outside-limits->03', L.Implies(bad_q, is_exc(E, resp, 16, 3)))
     E.prove('fc16:bytecount-contradicts-quantity->03', L.Implies(L.And(L.Not(bad_q), bad_bc), is_exc(E, resp, 16, 3)))
-    E.prove('fc16:range-outside-table->02', L.Implies(L.And(L.Not(bad_q), L.Not(bad_bc), L.Not(in_table(before, 'h', a, q))), is_exc(E, resp, 16, 2)))
-    E.prove('fc16:valid->normal', L.Implies(L.And(L.Not(bad_q), L.Not(bad_bc), in_table(before, 'h', a, q)), E.classname(resp) == 'WriteMultipleRegistersResponse'))
+    E.prove('fc16:range-outside-table->02', L.Implies(L.And(L.Not(bad_q), L.Not(bad_bc), L.Not(in_table(E, before, 'h', a, q))), is_exc(E, resp, 16, 2)))
+    E.prove('fc16:valid->normal', L.Implies(L.And(L.Not(bad_q), L.Not(bad_bc), in_table(E, before, 'h', a, q)), E.classname(resp) == 'WriteMultipleRegistersResponse'))
     if E.classname(resp) == 'ExceptionResponse':
         E.prove('exception->store-unchanged', tables_unchanged(E, ctx, before))
 
 
 def fc23_lemma(E):
-    ctx = S.slave_context(E)
+    ctx = S.slave_context(E, layout=E.choice('layout', S.LAYOUTS))
     head = E.bytes_n('head', 9)
     ra, rq, wa, wq, bc = P.u16_at(head, 0), P.u16_at(head, 2), P.u16_at(head, 4), P.u16_at(head, 6), L.at(head, 8)
     data = E.bytes('data', 0, 244)
@@ -145,7 +145,7 @@ def fc23_lemma(E):
     E.prove('fc23:read-quantity-outside->03', L.Implies(bad_r, is_exc(E, resp, 23, 3)))
     E.prove('fc23:write-quantity-outside->03', L.Implies(bad_w, is_exc(E, resp, 23, 3)))
     E.prove('fc23:bytecount-contradicts->03', L.Implies(bad_bc, is_exc(E, resp, 23, 3)))
-    both = L.And(in_table(before, 'h', wa, wq), in_table(before, 'h', ra, rq))
+    both = L.And(in_table(E, before, 'h', wa, wq), in_table(E, before, 'h', ra, rq))
     E.prove('fc23:either-range-outside->02', L.Implies(L.And(L.Not(bad_v), L.Not(both)), is_exc(E, resp, 23, 2)))
     E.prove('fc23:valid->normal', L.Implies(L.And(L.Not(bad_v), both), E.classname(resp) == 'ReadWriteMultipleRegistersResponse'))
     # no write unless both ranges are valid
@@ -159,7 +159,7 @@ SUPPORTED = (1, 2, 3, 4, 5, 6, 7, 8, 11, 12, 15, 16, 17, 20, 21, 22, 23, 24, 43)
 
 def illegal_function_lemma(E):
     """a function code that is not assigned -> exception 01 with fc|0x80, store untouched"""
-    ctx = S.slave_context(E)
+    ctx = S.slave_context(E, layout=E.choice('layout', S.LAYOUTS))
     fc = E.int('fc', 1, 128)
     E.assume(L.And(*[fc != k for k in SUPPORTED]))
     body = E.bytes('body', 0, 252)
